@@ -102,6 +102,18 @@ INVARIANT IOEmitInv
 
 
 def body(chk: check.Check):
+    pool = ThreadPoolExecutor(max_workers=6)
+    try:
+        _body(chk, pool)
+    except BaseException:
+        # do not sit out the TLC runs that are still going (only the children of THIS process)
+        pool.shutdown(wait=False, cancel_futures=True)
+        import subprocess
+        subprocess.run(['pkill', '-P', str(os.getpid()), '-f', 'tlc2.TLC'], check=False)
+        raise
+
+
+def _body(chk: check.Check, pool):
     # replays create and delete thousands of small files: tmpfs when there is one (TLC stays in /var/tmp)
     saved = os.environ.get('VERIF_SCRATCH')
     if not saved and os.access('/dev/shm', os.W_OK):
@@ -117,7 +129,6 @@ def body(chk: check.Check):
                 'and replayed through the real biogeme; distinct = distinct histories / outcomes replayed; evaluations = '
                 'comparisons with the specification')
 
-    pool = ThreadPoolExecutor(max_workers=6)
     # ------------------------------------------------------------------ launch every TLC run
     scns = fio.scenarios(chk.tier)
     fjobs = {}
